@@ -62,6 +62,8 @@ def run(chk, cfg, tier, variants):
             body = t.join(rr.sym_bytes(l) for l in lines)
             files[name] = sc.write("in_%s" % name, body + t)
             files[name + "_noterm"] = sc.write("in_%s_noterm" % name, body)  # last line without terminator
+            # the invalid byte as a lone UTF-8 continuation byte (0x80) instead of 0xFF: same verdicts expected
+            files[name + "_80"] = sc.write("in_%s_80" % name, (body + t).replace(b"\xff", b"\x80"))
         jobs, meta = [], []
         for i, r in enumerate(recs):
             o = r["o"]
@@ -70,14 +72,18 @@ def run(chk, cfg, tier, variants):
             vs = list(variants)
             if o["crlf"]:
                 vs += ["lfmmap", "lfpass"]      # --crlf on a file whose lines end in a bare LF (fast and slow line path)
+            # (not for \b / \B, nor -w: what a word boundary does next to invalid UTF-8 depends on the kind of invalid byte)
+            if not o["nul"] and not o["word"] and (i + vlib.seed()) % 2 == 0 and "wb" not in json.dumps(r["pats"]):
+                vs += ["mmap80", "pass80"]
             for v in vs:
                 if tier == "quick" and v in ("json", "reader") and i % 4 and not o["nul"]:
                     continue
-                f = files["lf"] if v in ("lfmmap", "lfpass") else files[tname + ("_noterm" if v == "noterm" else "")]
+                f = files["lf"] if v in ("lfmmap", "lfpass") else files[tname + "_80"] if v in ("mmap80", "pass80") else \
+                    files[tname + ("_noterm" if v == "noterm" else "")]
                 base = ["--no-config", "--color", "never", "-j1"]
-                if v in ("mmap", "noterm", "lfmmap"):
+                if v in ("mmap", "noterm", "lfmmap", "mmap80"):
                     args = base + ["-n", "--no-heading", "--mmap"] + pa + [f]
-                elif v == "lfpass":
+                elif v in ("lfpass", "pass80"):
                     args = base + ["-n", "--no-heading", "--passthru"] + pa + [f]
                 elif v == "reader":
                     args = base + ["-n", "--no-heading", "--no-mmap"] + pa + [f]
